@@ -513,10 +513,59 @@ fn long_runs_inner(w: &mut Worker) {
     }
 }
 
+/// Blocks whose bodies call library commands that are themselves scripts with blocks (concat,
+/// join_path, array_contains, array_join, map_contains_value, set_from_array, array_concat): the
+/// called script runs on line numbers of its own, inside the same run. The block is moved down the
+/// script line by line, so that its `end` (and `else`) lines fall on every line index the called
+/// scripts use for theirs; closed by the generic `end` and by the specific end command.
+fn library_calls_in_bodies(w: &mut Worker) {
+    let calls: [(&str, &str, Option<&str>); 9] = [
+        ("concat a b", "", Some("ab")),
+        ("join_path a b", "", Some("a/b")),
+        ("array_contains ${arr} b", "", Some("1")),
+        ("array_join ${arr} ,", "", Some("a,b,c")),
+        ("map_contains_value ${m} v", "", Some("true")),
+        ("map_contains_value ${m} nothing", "", Some("false")),
+        ("set_from_array ${arr}", "r = set_size ${r}", Some("3")),
+        ("array_concat ${arr} ${arr}", "r = array_length ${r}", Some("6")),
+        ("array_contains ${arr} nothing", "", Some("false")),
+    ];
+    let max_pad = w.tier.pick(20usize, 60usize);
+    for (call, post, value) in calls {
+        for kind in ["while", "for", "if", "else", "elseif", "fn", "nested"] {
+            for generic_end in [true, false] {
+                for pad in 0..=max_pad {
+                    let e = |specific: &str| if generic_end { "end".to_string() } else { specific.to_string() };
+                    let body = if post.is_empty() { format!("r = {}", call) } else { format!("r = {}\n{}", call, post) };
+                    let (block, expect): (String, Vec<(&str, Option<String>)>) = match kind {
+                        "while" => (format!("i = set 0\nwhile less_than ${{i}} 3\ni = calc ${{i}} + 1\n{}\n{}", body, e("end_while")), vec![("i", Some("3".into()))]),
+                        "for" => (format!("n = set 0\nfor x in ${{arr}}\nn = calc ${{n}} + 1\n{}\n{}", body, e("end_for")), vec![("n", Some("3".into())), ("x", Some("c".into()))]),
+                        "if" => (format!("if true\n{}\nt = set then\nelse\nt = set else\n{}", body, e("end_if")), vec![("t", Some("then".into()))]),
+                        "else" => (format!("if false\nt = set then\nelse\n{}\nt = set else\n{}", body, e("end_if")), vec![("t", Some("else".into()))]),
+                        "elseif" => (format!("if false\nt = set then\nelseif true\n{}\nt = set elseif\nelse\nt = set else\n{}", body, e("end_if")), vec![("t", Some("elseif".into()))]),
+                        "fn" => (format!("fn f\n{}\nreturn ${{r}}\n{}\no = f", body, e("end_fn")), vec![("o", value.map(String::from))]),
+                        _ => (
+                            format!("i = set 0\nk = set 0\nwhile less_than ${{i}} 2\ni = calc ${{i}} + 1\nfor x in ${{arr}}\nif true\n{}\nk = calc ${{k}} + 1\n{}\n{}\n{}", body, e("end_if"), e("end_for"), e("end_while")),
+                            vec![("i", Some("2".into())), ("k", Some("6".into()))],
+                        ),
+                    };
+                    let pads: String = (0..pad).map(|k| format!("p{} = set x\n", k % 3)).collect();
+                    let text = format!("{}arr = array a b c\nm = map\nmap_put ${{m}} k v\n{}\ndone = set yes", pads, block);
+                    let mut expect = expect;
+                    expect.push(("r", value.map(String::from)));
+                    expect.push(("done", Some("yes".into())));
+                    crate::util::scale_case(w, &format!("library-call-in-body {} around {:?} moved down {} ({})", kind, call, pad, if generic_end { "end" } else { "specific end" }), &text, &expect);
+                }
+            }
+        }
+    }
+}
+
 pub fn worker(w: &mut Worker) {
     let tier = w.tier;
     w.set_case_limit_ms(20_000);
     long_runs(w);
+    library_calls_in_bodies(w);
     let rig = FlowRig::new();
     let (devs, horizon) = tier.pick((2usize, 8usize), (3usize, 12usize));
 
@@ -616,6 +665,9 @@ pub fn worker(w: &mut Worker) {
 }
 
 pub fn replay(case: &Value) -> Result<String, String> {
+    if let Some(r) = crate::util::scale_replay(case) {
+        return r;
+    }
     let text = case["script"].as_str().ok_or("no script")?;
     if case["kind"].as_str() == Some("long-run") {
         return Ok(match long_run_observed(text) {
@@ -643,7 +695,7 @@ pub fn crash_sig(_case: &Value, kind: &str) -> String {
     kind.to_string()
 }
 
-pub const RULE: &str = "programs: every well-nested forest of blocks {if with 0-2 elseif and optional else, while, for-in} with 1..N blocks and depth <= 3, an emit before / inside / after every block, leaf bodies with and without an emit, condition forms {value ${c}, ${c} and ${d}, ${c} or ${d} and ${e}, command `ans`, negated command `not ans`} uniform and rotating; single-block programs with the full product of every spelling of every keyword (alias, block-specific end, generic end, full command name), larger ones with rotated spellings so that every keyword occurrence meets each of its spellings; for every program every assignment of truth values to condition evaluations and of lengths {0,1,2} to for-in arrays with a bounded number of deviations from the default (false / empty) within a horizon of choice points. Plus long-running loop nests (while / for-in, single, nested two and three deep, two inner loops in sequence, an inner loop inside a branch with and without branches after it, a small if-block (no else / else taken / last elseif taken) in every iteration of a long loop that sits in a branch of an if / if-else / elseif chain whose later branches must not run; iteration counts {0,1,40,70,300} quick, up to 5000 thorough, plus a 150000-iteration (thorough 600000) loop inside a loop and inside an if with an else; generic and block-specific end) whose counters and exit trace are compared with the same nest walked in Rust. Every execution on the real runner is compared with a tree-walking interpreter of the same AST run on the same answers: emit trace with loop-variable values and final variables (loop variables after their loop and handle names masked). evaluations = rendered programs; transitions = executions; states = distinct (trace length, deviations) classes";
+pub const RULE: &str = "programs: every well-nested forest of blocks {if with 0-2 elseif and optional else, while, for-in} with 1..N blocks and depth <= 3, an emit before / inside / after every block, leaf bodies with and without an emit, condition forms {value ${c}, ${c} and ${d}, ${c} or ${d} and ${e}, command `ans`, negated command `not ans`} uniform and rotating; single-block programs with the full product of every spelling of every keyword (alias, block-specific end, generic end, full command name), larger ones with rotated spellings so that every keyword occurrence meets each of its spellings; for every program every assignment of truth values to condition evaluations and of lengths {0,1,2} to for-in arrays with a bounded number of deviations from the default (false / empty) within a horizon of choice points. Plus long-running loop nests (while / for-in, single, nested two and three deep, two inner loops in sequence, an inner loop inside a branch with and without branches after it, a small if-block (no else / else taken / last elseif taken) in every iteration of a long loop that sits in a branch of an if / if-else / elseif chain whose later branches must not run; iteration counts {0,1,40,70,300} quick, up to 5000 thorough, plus a 150000-iteration (thorough 600000) loop inside a loop and inside an if with an else; generic and block-specific end) whose counters and exit trace are compared with the same nest walked in Rust. Every execution on the real runner is compared with a tree-walking interpreter of the same AST run on the same answers: emit trace with loop-variable values and final variables (loop variables after their loop and handle names masked). evaluations = rendered programs; transitions = executions; states = distinct (trace length, deviations) classes Library calls in bodies: while / for / if / else / elseif / function / three nested blocks around each of 9 calls of library commands that are scripts with blocks of their own, the block moved down the script by 0..20 (thorough 60) lines so that its end lines meet every line index, closed by `end` and by the specific end command: iteration counts, branch taken, result of the call";
 pub const ASSUMPTIONS: &[&str] = &["ill-nested programs, arrays modified while iterated and jumps into blocks are outside the property", "value-form conditions of an if/elseif chain are computed in front of the block"];
 pub const EXHAUSTIVE: bool = true;
 pub const WALL_CAP_S: (u64, u64) = (55, 1500);
